@@ -348,6 +348,34 @@ func runC18(c *Ctx, r *Report) {
 	r.Doc("R-C18.7", "the codec objects shared by concurrent PreSign/DecryptLinks calls are of concurrency-safe (pooled/stateless) types")
 	r.Doc("R-C18.8", "the link-key codec configured for a log is the one its loaders read with and the one a reopened log writes with")
 	optionForwarding(c, r, "R-C18.8", append(append(loaderFetchSpecs(), constructorLoaderSpecs()...), constructorLogSpecs()...), "IO")
+	r.Doc("R-C18.9", "the link key is copied when the codec is built: the sealed-box object never aliases the caller's key buffer (an application that wipes or reuses its buffer would otherwise re-key the log)")
+	{
+		nsb := p.FuncI("enc", "", "NewSecretbox")
+		sf := p.SSAFunc(nsb)
+		alias := ""
+		allInstrs(sf, false, func(ins ssa.Instruction) {
+			ret, ok := ins.(*ssa.Return)
+			if !ok || len(ret.Results) == 0 {
+				return
+			}
+			for x := range backSlice(ret.Results[0], nil) {
+				switch y := x.(type) {
+				case *ssa.SliceToArrayPointer:
+					if derivesFromAnyParam(y.X, sf) {
+						alias = "a slice-to-array-pointer conversion of the key parameter at " + p.Pos(y.Pos())
+					}
+				case *ssa.Parameter:
+					if _, isSlice := y.Type().Underlying().(*types.Slice); isSlice {
+						// the parameter itself may be read (copied element-wise); only a pointer into it is an alias
+						if ret.Results[0] == ssa.Value(y) {
+							alias = "the key parameter itself"
+						}
+					}
+				}
+			}
+		})
+		r.Check(alias == "", "R-C18.9", r.Key("R-C18.9", nsb, "key-copied", ""), nsb.Body.Pos(), "the box holds its own copy of the key", "NewSecretbox returns "+alias+": the box shares memory with the caller's key buffer, so links are sealed with whatever that buffer holds later (zeroes after a wipe, another log's key after reuse) and readers with the configured key can no longer open them")
+	}
 	nd := 0
 	for fn := range decodeScope(c) {
 		nd++
@@ -468,6 +496,15 @@ func constObj(p *Prog, fn *Fn, e ast.Expr) types.Object {
 func hasRule(r *Report, rule string) bool {
 	for _, o := range r.Obs {
 		if o.Rule == rule {
+			return true
+		}
+	}
+	return false
+}
+
+func derivesFromAnyParam(v ssa.Value, sf *ssa.Function) bool {
+	for x := range backSlice(v, nil) {
+		if p, ok := x.(*ssa.Parameter); ok && p.Parent() == sf {
 			return true
 		}
 	}
